@@ -372,9 +372,17 @@ theorem shallowOk_of_frag (O : Oracles) (f : FieldDecl) (v : PyVal)
   | anyOf fs => simp [shallowOk]
   | seqAny _ _ => simp [inFrag] at hf
   | setAny _ _ => simp [inFrag] at hf
-  | setOf _ _ _ => simp [inFrag] at hf
+  | setOf imm g sz =>
+    simp only [inFrag, and_true_iff] at hf
+    have himm : imm = false := by simpa using hf.1
+    subst himm
+    cases v <;> simp at hf
+    simp [shallowOk]
   | mapAny _ => simp [inFrag] at hf
-  | mapOf _ _ _ => simp [inFrag] at hf
+  | mapOf kf vf sz =>
+    simp only [inFrag, and_true_iff] at hf
+    cases v <;> simp at hf
+    simp [shallowOk]
   | oneOf _ => simp [inFrag] at hf
   | allOf _ => simp [inFrag] at hf
   | notF _ => simp [inFrag] at hf
@@ -392,6 +400,134 @@ theorem rt_optional (O : Oracles) (opts : DeserOpts) (g : FieldDecl) (v j : PyVa
   · simp [ser, serFirst, hs0, hsh, h1]
   · simp [deser, hjn, deserAny, h4]
   · simp [validate, validateAny, vNone, hnn, h5]
+
+/-! ### Set and Map -/
+theorem rt_dedup_of_nodup : ∀ l : List PyVal, pyNodup l = true → dedup l = l
+  | [], _ => rfl
+  | x :: l, h => by
+    simp only [pyNodup, and_true_iff, Bool.not_eq_true', pyMem] at h
+    simp only [dedup, rt_dedup_of_nodup l h.2]
+    congr 1
+    apply List.filter_eq_self.mpr
+    intro y hy
+    have := h.1
+    simp only [List.any_eq_false] at this
+    simp [this y hy]
+
+/-- "no key of `acc` is the string `k`" -/
+def keyFresh (k : String) (acc : List (PyVal × PyVal)) : Bool :=
+  !(acc.any fun kv => match kv.1 with | .str k' => k == k' | _ => false)
+
+theorem dictSet_fresh (k : String) (v : PyVal) : ∀ acc : List (PyVal × PyVal),
+    keyFresh k acc = true → dictSet (.str k) v acc = acc ++ [(.str k, v)]
+  | [], _ => rfl
+  | (k', v') :: rest, h => by
+    simp only [keyFresh, List.any_cons, Bool.not_or, and_true_iff] at h
+    have hne : pyEq (.str k) k' = false := by
+      cases k' <;> simp [pyEq] at h ⊢
+      exact h.1
+    simp only [dictSet, hne, Bool.false_eq_true, if_false, List.cons_append]
+    congr 1
+    exact dictSet_fresh k v rest (by simp only [keyFresh]; exact h.2)
+
+theorem keyFresh_append (k : String) (acc : List (PyVal × PyVal)) (k' : String) (v : PyVal)
+    (h1 : keyFresh k acc = true) (h2 : (k == k') = false) : keyFresh k (acc ++ [(.str k', v)]) = true := by
+  simp only [keyFresh, List.any_append, Bool.not_or, and_true_iff] at h1 ⊢
+  exact ⟨h1, by simp [h2]⟩
+
+theorem foldl_dictSet_distinct : ∀ (kvs acc : List (PyVal × PyVal)),
+    strKeysDistinct kvs = true →
+    (∀ kv ∈ kvs, ∀ k, kv.1 = .str k → keyFresh k acc = true) →
+    kvs.foldl (fun a kv => dictSet kv.1 kv.2 a) acc = acc ++ kvs
+  | [], acc, _, _ => by simp
+  | (key, v) :: rest, acc, hd, hf => by
+    cases key with
+    | str k =>
+      simp only [strKeysDistinct, and_true_iff] at hd
+      have hk := hf (.str k, v) (by simp) k rfl
+      simp only [List.foldl_cons, dictSet_fresh k v acc hk]
+      have hrest : ∀ kv ∈ rest, ∀ k2, kv.1 = .str k2 → keyFresh k2 (acc ++ [(.str k, v)]) = true := by
+        intro kv hkv k2 hk2
+        apply keyFresh_append k2 acc k v (hf kv (by simp [hkv]) k2 hk2)
+        -- k2 is a key of `rest`, and k is different from all of them
+        have h1 := hd.1
+        simp only [Bool.not_eq_true', List.any_eq_false] at h1
+        have := h1 kv hkv
+        rw [hk2] at this
+        simp only [Bool.not_eq_true] at this
+        cases hkk : (k2 == k)
+        · rfl
+        · have e : k2 = k := by simpa using hkk
+          subst e; simp at this
+      have ih := foldl_dictSet_distinct rest (acc ++ [(.str k, v)]) hd.2 hrest
+      rw [ih]; simp
+    | _ => simp [strKeysDistinct] at hd
+
+theorem dictOfPairs_distinct (kvs : List (PyVal × PyVal)) (h : strKeysDistinct kvs = true) :
+    dictOfPairs kvs = kvs := by
+  unfold dictOfPairs
+  have := foldl_dictSet_distinct kvs [] h (fun _ _ _ _ => rfl)
+  simpa using this
+
+theorem strKeys_hashable : ∀ (kvs : List (PyVal × PyVal)), strKeysDistinct kvs = true →
+    kvs.any (fun kv => unhashable kv.1) = false
+  | [], _ => rfl
+  | (key, v) :: rest, h => by
+    cases key with
+    | str k =>
+      simp only [strKeysDistinct, and_true_iff] at h
+      simp [unhashable, strKeys_hashable rest h.2]
+    | _ => simp [strKeysDistinct] at h
+
+theorem any_fst_map (P : PyVal → Bool) : ∀ (l : List (PyVal × PyVal)),
+    l.any (fun kv => P kv.1) = (l.map (·.1)).any P
+  | [] => rfl
+  | a :: rest => by simp [any_fst_map P rest]
+
+theorem strKeysDistinct_keys : ∀ (r kvs : List (PyVal × PyVal)), r.map (·.1) = kvs.map (·.1) →
+    strKeysDistinct r = strKeysDistinct kvs
+  | [], [], _ => rfl
+  | [], _ :: _, h => by simp at h
+  | _ :: _, [], h => by simp at h
+  | (k, v) :: r, (k', v') :: kvs, h => by
+    simp only [List.map_cons, List.cons.injEq] at h
+    obtain ⟨hk, hr⟩ := h
+    subst hk
+    have ih := strKeysDistinct_keys r kvs hr
+    cases k <;> simp only [strKeysDistinct, ih]
+    rename_i s
+    have h := any_fst_map (fun key => match key with | .str k' => s == k' | _ => false) r
+    have h' := any_fst_map (fun key => match key with | .str k' => s == k' | _ => false) kvs
+    rw [hr] at h
+    exact congrArg (fun b => (!b && strKeysDistinct kvs)) (h.trans h'.symm)
+
+/-- entry-wise round trip of a Map with String keys -/
+theorem RT_pairs (O : Oracles) (opts : DeserOpts) (lo hi : Option Nat) (pat : Option String) (vf : FieldDecl) :
+    ∀ kvs : List (PyVal × PyVal),
+      (∀ kv ∈ kvs, (∃ k, kv.1 = .str k) ∧ aString O lo hi pat kv.1 = true ∧ RT O opts vf kv.2) →
+      ∃ r, mapE (fun (kv : PyVal × PyVal) =>
+              bindE (ser O (.string lo hi pat) kv.1) fun k' => bindE (ser O vf kv.2) fun v' => .ok (k', v')) kvs = .ok r
+        ∧ isJsonPairs r = true ∧ r.map (·.1) = kvs.map (·.1)
+        ∧ mapE (fun (kv : PyVal × PyVal) =>
+              bindE (deser O opts false vf kv.2) fun v' =>
+              bindE (deser O opts false (.string lo hi pat) kv.1) fun k' => .ok (k', v')) r = .ok kvs
+        ∧ mapE (fun (kv : PyVal × PyVal) =>
+              bindE (validate O (.string lo hi pat) kv.1) fun k' =>
+              bindE (validate O vf kv.2) fun v' => .ok (k', v')) kvs = .ok kvs
+  | [], _ => ⟨[], rfl, rfl, rfl, rfl, rfl⟩
+  | (key, v) :: rest, h => by
+    rcases h (key, v) (by simp) with ⟨⟨k, hk⟩, hs, j, h1, h2, _, h4, h5⟩
+    simp only at hk; subst hk
+    rcases rt_string O opts lo hi pat (.str k) hs with ⟨jk, k1, _, _, k4, k5⟩
+    have hjk : jk = .str k := by simp [ser, sScalar] at k1; exact k1.symm
+    subst hjk
+    rcases RT_pairs O opts lo hi pat vf rest (fun kv hkv => h kv (by simp [hkv])) with ⟨r, g1, g2, g3, g4, g5⟩
+    refine ⟨(.str k, j) :: r, ?_, ?_, ?_, ?_, ?_⟩
+    · simp [mapE, k1, h1, g1]
+    · simp [isJsonPairs, isJsonKey, h2, g2]
+    · simp [g3]
+    · simp [mapE, h4, k4, g4]
+    · simp [mapE, k5, h5, g5]
 
 mutual
 theorem round_trip (O : Oracles) (opts : DeserOpts) : ∀ (f : FieldDecl) (v : PyVal),
@@ -476,9 +612,65 @@ theorem round_trip (O : Oracles) (opts : DeserOpts) : ∀ (f : FieldDecl) (v : P
     · simp only [validate]; exact this.2.2.2
   | .seqAny _ _, _, _, hf => by simp [inFrag] at hf
   | .setAny _ _, _, _, hf => by simp [inFrag] at hf
-  | .setOf _ _ _, _, _, hf => by simp [inFrag] at hf
+  | .setOf imm f sz, v, hc, hf => by
+    simp only [inFrag, and_true_iff] at hf
+    obtain ⟨himm, hv⟩ := hf
+    have himm' : imm = false := by simpa using himm
+    subst himm'
+    cases v with
+    | set fr xs =>
+      simp only [and_true_iff] at hv
+      obtain ⟨⟨⟨hfr, hnd⟩, hh⟩, hall⟩ := hv
+      have hfr' : fr = false := by simpa using hfr
+      subst hfr'
+      have hh' : xs.any unhashable = false := by simpa using hh
+      simp only [conforms, cSet, and_true_iff] at hc
+      have hpt : ∀ x ∈ xs, RT O opts f x := fun x hx =>
+        round_trip O opts f x ((List.all_eq_true.mp hc.2) x hx) ((List.all_eq_true.mp hall) x hx)
+      rcases RT_list O opts f xs hpt with ⟨js, g1, g2, g3, g4⟩
+      have hdd := rt_dedup_of_nodup xs hnd
+      refine ⟨.list js, ?_, by simp [isJson, g2], rfl, ?_, ?_⟩
+      · simp [ser, sSeq, seqLike, g1]
+      · simp [deser, PyVal.isNone, dSeq, docSeq, g3, toValueErr, mkSet, hh', hdd]
+      · simp [validate, vSet, hc.1.2, g4, hdd]
+    | _ => simp at hv
   | .mapAny _, _, _, hf => by simp [inFrag] at hf
-  | .mapOf _ _ _, _, _, hf => by simp [inFrag] at hf
+  | .mapOf kf vf sz, v, hc, hf => by
+    simp only [inFrag, and_true_iff] at hf
+    obtain ⟨hkf, hv⟩ := hf
+    cases kf <;> simp [isStringDecl] at hkf
+    rename_i lo hi pat
+    cases v with
+    | dict kvs =>
+      simp only [and_true_iff] at hv
+      obtain ⟨hdist, hall⟩ := hv
+      simp only [conforms, cMap, and_true_iff] at hc
+      have hkeys : ∀ kv ∈ kvs, ∃ k, kv.1 = .str k := by
+        intro kv hkv
+        have := (List.all_eq_true.mp hc.2) kv hkv
+        simp only [and_true_iff, conforms, aString] at this
+        cases hk : kv.1 <;> simp [hk] at this
+        exact ⟨_, rfl⟩
+      have hpt : ∀ kv ∈ kvs, (∃ k, kv.1 = .str k) ∧ aString O lo hi pat kv.1 = true
+          ∧ RT O { opts with keepUndefined := true } vf kv.2 := by
+        intro kv hkv
+        have hck := (List.all_eq_true.mp hc.2) kv hkv
+        simp only [and_true_iff, conforms] at hck
+        exact ⟨hkeys kv hkv, hck.1,
+          round_trip O { opts with keepUndefined := true } vf kv.2 hck.2 ((List.all_eq_true.mp hall) kv hkv)⟩
+      rcases RT_pairs O { opts with keepUndefined := true } lo hi pat vf kvs hpt with ⟨r, g1, g2, g3, g4, g5⟩
+      have hrd : strKeysDistinct r = true := by rw [strKeysDistinct_keys r kvs g3]; exact hdist
+      refine ⟨.dict r, ?_, by simp [isJson, g2], rfl, ?_, ?_⟩
+      · simp only [ser] at g1
+        simp only [ser, sMap, g1]
+        simp [bindE, strKeys_hashable r hrd, dictOfPairs_distinct r hrd]
+      · simp only [deser] at g4
+        simp only [deser, dMap, g4]
+        simp [bindE, PyVal.isNone, strKeys_hashable kvs hdist, dictOfPairs_distinct kvs hdist]
+      · simp only [validate] at g5
+        simp only [validate, vMap, g5]
+        simp [bindE, dictOfPairs_distinct kvs hdist, hc.1]
+    | _ => simp at hv
   | .struct c fields defaults, v, _, hf => by
     simp only [inFrag, and_true_iff] at hf
     obtain ⟨⟨⟨hinl, hacc⟩, hnd⟩, hv⟩ := hf
